@@ -1,6 +1,7 @@
 (* Props/C04.v — C04: identifier resolution in the JS tree follows ECMAScript scoping.
    Statements only; each is closed by [exact] of a lemma proved in JsScope/*.v. *)
-From Verif Require Import Common.Base JsScope.Model JsScope.Spec JsScope.HeapLemmas JsScope.Proofs JsScope.Main.
+From Verif Require Import Common.Base JsScope.Model JsScope.Spec JsScope.HeapLemmas JsScope.Proofs JsScope.Main
+  JsScope.Rename JsScope.Main2.
 
 (* declare_twice_rejected (needed by C03), in the three forms Declare implements.
    (1) a parameter / let / const / class / catch-parameter declaration of a name the scope already
@@ -51,7 +52,8 @@ Print Assumptions declare_var_through_block_rejected.
          ([spec_resolve]) gives them the same declaration;
      (2) an occurrence bound nowhere is an undeclared variable (Decl = NoDecl) of the outermost scope's
          Undeclared list, under its own name;
-     (3) Uses of the Var of an occurrence is the number of occurrences that share it.
+     (3) an occurrence that is bound is a declared variable (Decl <> NoDecl) of that name;
+     (4) Uses of the Var of an occurrence is the number of occurrences that share it.
    NOT covered by this theorem (hence _partial): loop heads (NumForDecls), parameter default values
    (NumArgUses), destructuring defaults in catch heads, var redeclaring a catch parameter, classes,
    x => ... and the arrow cover grammar (UndeclareScope), function-expression names; these are checked by
@@ -72,7 +74,35 @@ Theorem resolution_correct_partial :
       (forall i x, (i < length vs)%nat -> nth i ts (TGlobal 0) = TGlobal x ->
          In (nth i vs O) (sundeclared (sc_of st O)) /\ vdecl (vget st (nth i vs O)) = NoDecl
          /\ vname (vget st (nth i vs O)) = x) /\
+      (forall i s a x, (i < length vs)%nat -> nth i ts (TGlobal 0) = TBind s a x ->
+         vdecl (vget st (nth i vs O)) <> NoDecl /\ vname (vget st (nth i vs O)) = x) /\
       (forall i, (i < length vs)%nat ->
          vuses (vget st (nth i vs O)) = Z.of_nat (count_occ Nat.eq_dec vs (nth i vs O))).
 Proof. exact resolution_correct_core. Qed.
 Print Assumptions resolution_correct_partial.
+
+(* rename_alpha (on the fragment of resolution_correct_partial, as its corollary): take any assignment rho of
+   new names to Vars that gives distinct names, not occurring in the program, to the declared Vars and leaves
+   undeclared Vars alone.  The program in which every identifier occurrence is replaced by rho of its Var
+   ([rename_prog], same tree shape) is in the fragment again and the declarative resolver binds every
+   occurrence of it in the same scope as before, under the new name: the renamed program is
+   alpha-equivalent to the original.  Example: Main2.rename_example. *)
+Theorem rename_alpha :
+  forall (p : prog) (rho : nat -> Z),
+    core p = true -> program_ok p = true -> Z.of_nat (occurrences p) < 65536 ->
+    exists ps,
+      run_program p = Running ps /\
+      let st := pst ps in
+      let vs := map (root_of st) (rev (plog ps)) in
+      let ts := spec_resolve p in
+      (forall i j, (i < length vs)%nat -> (j < length vs)%nat ->
+         vdecl (vget st (nth i vs O)) <> NoDecl -> vdecl (vget st (nth j vs O)) <> NoDecl ->
+         rho (nth i vs O) = rho (nth j vs O) -> nth i vs O = nth j vs O) ->
+      (forall i, (i < length vs)%nat -> vdecl (vget st (nth i vs O)) <> NoDecl -> ~ In (rho (nth i vs O)) (allnames p)) ->
+      (forall i, (i < length vs)%nat -> vdecl (vget st (nth i vs O)) = NoDecl -> rho (nth i vs O) = vname (vget st (nth i vs O))) ->
+      let p' := rename_prog (map rho vs) p in
+      core p' = true /\
+      spec_resolve p' =
+        map (fun vt => match snd vt with TGlobal x => TGlobal x | TBind s a _ => TBind s a (rho (fst vt)) end) (combine vs ts).
+Proof. exact rename_alpha_core. Qed.
+Print Assumptions rename_alpha.
